@@ -38,6 +38,8 @@ class Sym:
         self.fresh_n = 0
         self.paths_limit = 64
         self.calls = []    # (call node, state at the call) in execution order of the current path set
+        self.decide = None  # optional: decides ConditionalOperator conditions inside expressions
+        self.scale = {}     # lvalue key -> element size for pointer-typed lvalues (p += n advances n*size)
 
     def fresh(self, hint):
         self.fresh_n += 1
@@ -54,6 +56,12 @@ class Sym:
             if e['n'] in st:
                 return st[e['n']]
             return Lin({e['n'] + '0': 1})
+        if k == 'MemberExpr' and F.src(e) in st:
+            return st[F.src(e)]
+        if k == 'ConditionalOperator' and self.decide is not None:
+            d = self.decide(e['c'][0], st)
+            if d is not None:
+                return self.ev(e['c'][1] if d else e['c'][2], st)
         if k == 'BinaryOperator' and e['op'] in ('+', '-'):
             a, b = self.ev(e['c'][0], st), self.ev(e['c'][1], st)
             return a.add(b, 1 if e['op'] == '+' else -1)
@@ -72,6 +80,13 @@ class Sym:
                         atom = 'ru(%r,%r)' % (y, c)
                         self.bounds[atom] = (y, y.add(c).add(Lin(const=-1)))
                         return Lin({atom: 1})
+                # (y + K) / c * c with the literal K = c - 1
+                cb_ = F.const_value(b)
+                if x['k'] == 'BinaryOperator' and x['op'] == '+' and cb_ is not None and F.const_value(F.strip(x['c'][1])) == cb_ - 1:
+                    y = self.ev(x['c'][0], st)
+                    atom = 'ru(%r,%r)' % (y, c)
+                    self.bounds[atom] = (y, y.add(c).add(Lin(const=-1)))
+                    return Lin({atom: 1})
                 y = self.ev(x, st)
                 atom = 'rd(%r,%r)' % (y, c)
                 self.bounds[atom] = (y.add(c, -1).add(Lin(const=1)), y)
@@ -148,19 +163,21 @@ class Sym:
             return outs
         if k == 'BinaryOperator' and s['op'] == '=':
             l = F.strip(s['c'][0])
-            if l['k'] == 'DeclRefExpr':
+            key = self.lkey(l)
+            if key is not None:
                 r = F.strip(s['c'][1])
                 if r['k'] == 'CallExpr':
-                    σ[l['n']] = self.fresh(l['n'])
+                    σ[key] = self.fresh(key)
                     self.kill_addr_args(r, σ)
                 else:
-                    σ[l['n']] = self.ev(s['c'][1], σ)
+                    σ[key] = self.ev(s['c'][1], σ)
             return [σ]
         if k == 'CompoundAssignOperator' and s['op'] in ('+=', '-='):
             l = F.strip(s['c'][0])
-            if l['k'] == 'DeclRefExpr':
-                cur = σ.get(l['n'], Lin({l['n'] + '0': 1}))
-                σ[l['n']] = cur.add(self.ev(s['c'][1], σ), 1 if s['op'] == '+=' else -1)
+            key = self.lkey(l)
+            if key is not None:
+                cur = σ.get(key, Lin({key + '0': 1}))
+                σ[key] = cur.add(self.ev(s['c'][1], σ).scale(self.scale.get(key, 1)), 1 if s['op'] == '+=' else -1)
             return [σ]
         if k == 'CallExpr':
             self.calls.append((s, dict(σ)))
@@ -185,6 +202,13 @@ class Sym:
                             self.kill_addr_args(x, σ)
             return [σ]
         return [σ]
+
+    def lkey(self, l):
+        if l['k'] == 'DeclRefExpr':
+            return l['n']
+        if l['k'] == 'MemberExpr' and (F.src(l) in self.scale or getattr(self, 'member_lvalues', False)):
+            return F.src(l)
+        return None
 
     def kill_addr_args(self, call, σ):
         for a in F.call_args(call):
